@@ -53,7 +53,9 @@ def build_harness(race=False):
     """(Re)build the harness binary against /repo's current working tree with hooks enabled."""
     os.makedirs(BUILD, exist_ok=True)
     out = os.path.join(BUILD, "vh-race" if race else "vh")
-    cmd = ["go", "build", "-tags", "verif", "-o", out]
+    # no build tag: the harness observes the library through its public API only (the guarded debugging hook
+    # asm/verif_hooks.go of /repo is not needed and stays inert)
+    cmd = ["go", "build", "-o", out]
     if race:
         cmd.insert(2, "-race")
     cmd.append(".")
